@@ -9,11 +9,21 @@ class Author(models.Model):
         db_table = "author"
 
 
+class HighRatedManager(models.Manager):
+    """A second, non-default manager that carries its own condition."""
+
+    def get_queryset(self):
+        return super().get_queryset().filter(rating__gte=3)
+
+
 class Post(models.Model):
     title = models.CharField(max_length=64)
     rating = models.IntegerField()
     author = models.ForeignKey(Author, null=True, on_delete=models.CASCADE,
                                related_name="posts")
+
+    objects = models.Manager()
+    high = HighRatedManager()
 
     class Meta:
         app_label = "simhost"
